@@ -19,6 +19,9 @@ CHECKS = {
  "C06": ("complete enumeration of the planted strictly-feasible family (every cone list of <=2 atoms/<=6 rows [thorough <=3/<=8] from a 19-atom alphabet x every x* in {-1,0,1}^n x 2 s* x 2 z* x 3 A patterns x P menu x full/triu) and of a block-replicated extension up to n=60 on the real solver with default settings; aggregate oracle computed exactly over the enumerated family",
          "Because the family is enumerated completely (6.2e5 instances in quick), the Solved fraction and the iteration quantiles are exact numbers, compared with constant envelopes (Solved >= 99.5%, p95 <= 20, p99.9 <= 40 iterations); an infeasibility verdict on any strictly feasible planted instance is an immediate violation.",
          "decides the distributional property for the enumerated lattice family only, not for the random generator of the property text (random dense data of size 60 is outside any exhaustive bound); envelopes fixed from the unchanged tree (measured 99.94%, 14, 23)", "DESIGN.md §5 C06"),
+ "C07": ("exhaustive enumeration of base problems (planted family + every single data deviation, 7 cone lists incl. exp/pow/genpow/PSD) x step-rule settings; for each, one long run observed through the guarded iterate observer and then every prefix budget max_iter = 0..K on the real solver; interiority oracle on every internal iterate + bitwise prefix equality",
+         "On every observed iterate of every run (2.4e7 iterates in quick) tau>0, kappa>0, s in int K and z in int K* by independent predicates, accepted steps lie in (0, max_step_fraction]; for every k the internal iterate of the max_iter=k run equals the k-th iterate of the long run bit for bit and a pure budget stop returns exactly that iterate un-scaled.",
+         "interiority margin 1e-12 relative; iterates are read through hook H3; both scaling strategies occur through the cone lists (GenPow: dual only; Exp/Pow: primal-dual with fallback)", "DESIGN.md §5 C07"),
  "C08": ("explicit enumeration of all operation histories over a 35-letter alphabet of update forms (whole vector, matrix, 1- and 2-entry index/value, empty, wrong length, out-of-range index, pattern mismatch, update_data good/bad, solve) to depth 3 (thorough 4) on 4 initial problems x equilibration on/off + presolve-active variant; reference model = four plain arrays; state oracle after every operation + differential against a freshly built solver after the final solve",
          "Every history in the bound is replayed on a fresh real solver; after each operation the result (Ok/Err) is compared with the model's expectation, the internal P,q,A,b are compared entry for entry with the re-scaled model and the KKT copies of P and A bit for bit (guarded snapshot), rejected whole/matrix updates must leave data untouched, and the closing solve must agree with a freshly built solver on the model data (verdict class, objectives) and pass the C01 and C03 oracles for that data.",
          "value sets are two per component; fresh-vs-updated agreement to 1e-6 relative; a component partially written by a rejected index/value update is treated as unspecified until its next whole update", "DESIGN.md §5 C08"),
